@@ -246,7 +246,8 @@ func (op Multf16) Op_instruction_internal_state(arch *Arch, flavor string) strin
 }
 
 func (Op Multf16) Op_instruction_verilog_reset(arch *Arch, flavor string) string {
-	return ""
+	// Without a reset value the state register is undefined and the instruction never starts
+	return "\t\t\t" + "multiplier_" + arch.Tag + "_state <= #1 " + "multiplier_" + arch.Tag + "_put_a;\n"
 }
 
 func (Op Multf16) Op_instruction_verilog_default_state(arch *Arch, flavor string) string {
